@@ -107,6 +107,7 @@ func genDsyev(g *vlib.G) {
 						}
 						g.Case(fmt.Sprintf("Dsyev n=%d fam=%s uplo=%s prof=%s lda=n+%d lwork=%s", n, f.name, uploName(uplo), p.name, ldx, lw), func(t *vlib.T) {
 							runDsyev(t, n, p, f, uplo, ldx, lw)
+							attributeBlocked(t, p, func(t *vlib.T, p prof) { runDsyev(t, n, p, f, uplo, ldx, lw) })
 						})
 					}
 				}
@@ -278,6 +279,7 @@ func genDsytrd(g *vlib.G) {
 						}
 						g.Case(fmt.Sprintf("Dsytrd n=%d fam=%s uplo=%s prof=%s lda=n+%d lwork=%s", n, f.name, uploName(uplo), p.name, ldx, lw), func(t *vlib.T) {
 							runDsytrd(t, n, p, f, uplo, ldx, lw)
+							attributeBlocked(t, p, func(t *vlib.T, p prof) { runDsytrd(t, n, p, f, uplo, ldx, lw) })
 						})
 					}
 				}
